@@ -61,6 +61,8 @@ type Contract struct {
 	Inline     bool
 	NoSafety   bool
 	CheckNil   bool
+	CheckOwnership bool
+	OwnershipOnly  bool
 	MayPanic   bool
 	TrustPre   map[string]string // "callee requires label" -> justification: precondition assumed at call sites in this function
 	Loops      map[int]*LoopContract
@@ -477,6 +479,13 @@ func (cs *ContractSet) ParseContractFile(path, pkgPath string) error {
 		case "check":
 			if cur != nil && strings.TrimSpace(rest) == "nil" {
 				cur.CheckNil = true
+			}
+			if cur != nil && strings.TrimSpace(rest) == "ownership" {
+				cur.CheckOwnership = true
+			}
+			if cur != nil && strings.TrimSpace(rest) == "ownership only" {
+				cur.CheckOwnership = true
+				cur.OwnershipOnly = true
 			}
 		case "loop":
 			if cur == nil {
